@@ -885,18 +885,43 @@ macro_rules! value_type_check {
 
 fn check_value_types(cx: &Ctx, pats: &Vec<Vec<u8>>, hay: &Vec<u8>) {
     if !cx.on("C06") && !cx.on("C09") { return; }
-    value_type_check!(cx, u8, "u8", pats, hay);
-    value_type_check!(cx, u16, "u16", pats, hay);
-    value_type_check!(cx, u32, "u32", pats, hay);
-    value_type_check!(cx, u64, "u64", pats, hay);
-    value_type_check!(cx, u128, "u128", pats, hay);
-    value_type_check!(cx, usize, "usize", pats, hay);
-    value_type_check!(cx, i8, "i8", pats, hay);
-    value_type_check!(cx, i16, "i16", pats, hay);
-    value_type_check!(cx, i32, "i32", pats, hay);
-    value_type_check!(cx, i64, "i64", pats, hay);
-    value_type_check!(cx, i128, "i128", pats, hay);
-    value_type_check!(cx, isize, "isize", pats, hay);
+    let pr = if cx.on("C09") { "C09" } else { "C06" };
+    if catch_unwind(AssertUnwindSafe(|| { value_type_check!(cx, u8, "u8", pats, hay); })).is_err() {
+        cx.st.fail(mk_fail(pr, "panic: the library panicked in the value-type family (build / search / serialisation round trip), value type u8", "any", MatchKind::Standard, 16, pats, &[], hay, "no panic".into(), "panic".into()));
+    }
+    if catch_unwind(AssertUnwindSafe(|| { value_type_check!(cx, u16, "u16", pats, hay); })).is_err() {
+        cx.st.fail(mk_fail(pr, "panic: the library panicked in the value-type family (build / search / serialisation round trip), value type u16", "any", MatchKind::Standard, 16, pats, &[], hay, "no panic".into(), "panic".into()));
+    }
+    if catch_unwind(AssertUnwindSafe(|| { value_type_check!(cx, u32, "u32", pats, hay); })).is_err() {
+        cx.st.fail(mk_fail(pr, "panic: the library panicked in the value-type family (build / search / serialisation round trip), value type u32", "any", MatchKind::Standard, 16, pats, &[], hay, "no panic".into(), "panic".into()));
+    }
+    if catch_unwind(AssertUnwindSafe(|| { value_type_check!(cx, u64, "u64", pats, hay); })).is_err() {
+        cx.st.fail(mk_fail(pr, "panic: the library panicked in the value-type family (build / search / serialisation round trip), value type u64", "any", MatchKind::Standard, 16, pats, &[], hay, "no panic".into(), "panic".into()));
+    }
+    if catch_unwind(AssertUnwindSafe(|| { value_type_check!(cx, u128, "u128", pats, hay); })).is_err() {
+        cx.st.fail(mk_fail(pr, "panic: the library panicked in the value-type family (build / search / serialisation round trip), value type u128", "any", MatchKind::Standard, 16, pats, &[], hay, "no panic".into(), "panic".into()));
+    }
+    if catch_unwind(AssertUnwindSafe(|| { value_type_check!(cx, usize, "usize", pats, hay); })).is_err() {
+        cx.st.fail(mk_fail(pr, "panic: the library panicked in the value-type family (build / search / serialisation round trip), value type usize", "any", MatchKind::Standard, 16, pats, &[], hay, "no panic".into(), "panic".into()));
+    }
+    if catch_unwind(AssertUnwindSafe(|| { value_type_check!(cx, i8, "i8", pats, hay); })).is_err() {
+        cx.st.fail(mk_fail(pr, "panic: the library panicked in the value-type family (build / search / serialisation round trip), value type i8", "any", MatchKind::Standard, 16, pats, &[], hay, "no panic".into(), "panic".into()));
+    }
+    if catch_unwind(AssertUnwindSafe(|| { value_type_check!(cx, i16, "i16", pats, hay); })).is_err() {
+        cx.st.fail(mk_fail(pr, "panic: the library panicked in the value-type family (build / search / serialisation round trip), value type i16", "any", MatchKind::Standard, 16, pats, &[], hay, "no panic".into(), "panic".into()));
+    }
+    if catch_unwind(AssertUnwindSafe(|| { value_type_check!(cx, i32, "i32", pats, hay); })).is_err() {
+        cx.st.fail(mk_fail(pr, "panic: the library panicked in the value-type family (build / search / serialisation round trip), value type i32", "any", MatchKind::Standard, 16, pats, &[], hay, "no panic".into(), "panic".into()));
+    }
+    if catch_unwind(AssertUnwindSafe(|| { value_type_check!(cx, i64, "i64", pats, hay); })).is_err() {
+        cx.st.fail(mk_fail(pr, "panic: the library panicked in the value-type family (build / search / serialisation round trip), value type i64", "any", MatchKind::Standard, 16, pats, &[], hay, "no panic".into(), "panic".into()));
+    }
+    if catch_unwind(AssertUnwindSafe(|| { value_type_check!(cx, i128, "i128", pats, hay); })).is_err() {
+        cx.st.fail(mk_fail(pr, "panic: the library panicked in the value-type family (build / search / serialisation round trip), value type i128", "any", MatchKind::Standard, 16, pats, &[], hay, "no panic".into(), "panic".into()));
+    }
+    if catch_unwind(AssertUnwindSafe(|| { value_type_check!(cx, isize, "isize", pats, hay); })).is_err() {
+        cx.st.fail(mk_fail(pr, "panic: the library panicked in the value-type family (build / search / serialisation round trip), value type isize", "any", MatchKind::Standard, 16, pats, &[], hay, "no panic".into(), "panic".into()));
+    }
 }
 
 /// C13 / C07: the constructors of the wrong match kind must panic (documented), otherwise a scan can run on an
@@ -1456,10 +1481,11 @@ fn main() {
         run_chain_family(&cx, false);
         run_boundary_chars(&cx);
     }
-    check_conversion(&cx);
-    check_index_entry(&cx);
-    check_inline_haystack(&cx);
-    check_kind_guards(&cx);
+    for (name, fam) in [("conversion", check_conversion as fn(&Ctx)), ("index-entry", check_index_entry as fn(&Ctx)), ("owned-haystack", check_inline_haystack as fn(&Ctx)), ("kind guards", check_kind_guards as fn(&Ctx))] {
+        if catch_unwind(AssertUnwindSafe(|| fam(&cx))).is_err() {
+            st.fail(mk_fail("PANIC", &format!("panic: the library panicked in the fixed family `{}` (valid inputs)", name), "any", MatchKind::Standard, 16, &[], &[], &[], "no panic".into(), "panic".into()));
+        }
+    }
     let vt_pats = vec![b(b"ab"), b(b"b"), b(b"abc"), b(b"c"), b("é".as_bytes())];
     check_value_types(&cx, &vt_pats, &b("xabcéb".as_bytes()));
     check_value_types(&cx, &vec![b(&[0, 1]), b(&[1]), b(&[0xff, 0])], &b(&[0, 1, 0xff, 0, 1]));
